@@ -47,6 +47,9 @@ func genTimedScenario(r *Rng, v6 bool) (cScenario, []string) {
 	sc := cScenario{v6: v6, werr: -1}
 	sc.T = timedTs[r.Intn(len(timedTs))]
 	sc.n = r.Range(-1, 6)
+	if r.Chance(1, 16) {
+		sc.n = -r.Range(2, 9) // "a negative retry count means retry forever": any negative one (seeded change C12-14)
+	}
 	sc.cap = r.Range(0, 5)
 	if r.Chance(1, 12) {
 		sc.cap = 64
